@@ -450,7 +450,8 @@ func (c *Client) recv(keepaliveQuit chan<- struct{}) {
 			// Whoever closed the stream first, the session is over.
 			c.disconnected(c.Session.SMState)
 			return
-		default:
+		case stanza.Message, stanza.Presence, *stanza.IQ:
+			// Only stanzas are counted for stream management
 			c.Session.SMState.Inbound++
 		}
 		// Do normal route processing in a go-routine so we can immediately
